@@ -204,6 +204,10 @@ fn main() {
             return;
         }
         "judge-frames" => legs::framejudge::judge(&args.str("events", "")),
+        "judge-ra" => {
+            println!("{}", legs::c17::judge_wire(&report::unhex(&args.str("hex", ""))));
+            return;
+        }
         "consts" => {
             println!("{}", legs::dnsmisc::consts());
             return;
